@@ -336,3 +336,37 @@ def show(t, depth=0):
     if k == "cidx":
         return "%s[%s%d]" % (show(t[1], depth + 1), "-" if t[3] else "", t[2])
     return "%s(%s)" % (k, ", ".join(show(a, depth + 1) if isinstance(a, tuple) else str(a) for a in t[1:]))
+
+
+def simplify(t):
+    """strip checked-arithmetic wrappers and fold constants: field((a AddWithOverflow b),0) -> (a Add b); (1 Shl 6) -> 64"""
+    if not isinstance(t, tuple) or not t:
+        return t
+    if t[0] == "field" and t[2] == "0" and isinstance(t[1], tuple) and t[1] and t[1][0] == "bin" and "WithOverflow" in t[1][1]:
+        return simplify(("bin", t[1][1].replace("WithOverflow", ""), t[1][2], t[1][3]))
+    if t[0] == "const":
+        return t
+    t = tuple(simplify(x) if isinstance(x, tuple) and x and isinstance(x[0], str) else
+              (tuple(simplify(y) for y in x) if isinstance(x, tuple) else x) for x in t)
+    if t[0] == "bin" and t[2][0] == "const" and t[3][0] == "const" and isinstance(t[2][1], int) and isinstance(t[3][1], int) \
+            and not isinstance(t[2][1], bool) and not isinstance(t[3][1], bool):
+        a, b = t[2][1], t[3][1]
+        op = t[1].replace("Unchecked", "")
+        try:
+            v = {"Add": a + b, "Sub": a - b, "Mul": a * b, "Shl": a << b if 0 <= b < 128 else None, "Shr": a >> b if 0 <= b < 128 else None,
+                 "BitAnd": a & b, "BitOr": a | b, "BitXor": a ^ b}.get(op)
+        except Exception:
+            v = None
+        if v is not None:
+            return ("const", v)
+    if t[0] == "cast" and t[2][0] == "const" and isinstance(t[2][1], int) and t[1] == "IntToInt":
+        return t[2]
+    return t
+
+
+def flatten(t, op):
+    """operands of a left/right-nested commutative operator tree"""
+    t = strip_casts(t) if op != "cast" else t
+    if t[0] == "bin" and t[1] == op:
+        return flatten(t[2], op) + flatten(t[3], op)
+    return [t]
